@@ -19,7 +19,7 @@ from mc.result import Result, h64
 ID = 'C01'
 LEVEL = 'exploration'
 RULE = (
-    'exhaustive products: (a) token sequences of length<=d over SIGMA_tok x 12 contexts x parser configurations; (b) byte strings<=3 over '
+    'exhaustive products: (a) token sequences of length<=d over SIGMA_tok x 12 contexts (+5 mid-construct contexts for the full alphabet) x parser configurations; (b) byte strings<=3 over '
     '11 byte classes x 9 prefixes x 4 encoding arguments x 2 entry points; (c) all edge sets over <=3 virtual sheets x fetcher answers; '
     '(d) every size 1..N of each nesting/flat family. Distinct by construction; non-trivial = the parse produced at least one DOM node '
     'or logged at least one message (it got beyond the first dispatch)'
@@ -45,7 +45,11 @@ CORE = ['\\D800 ', '\\7d ', 'a', 'a(', 'and(', 'var(', 'rgb(', 'calc(', 'url(', 
         '"s"', '"u', '1px', '#f00', '/*c*/', '/*', '<!--', ' ', '\\', '*']
 CORE4 = ['a', 'a(', 'var(', 'calc(', 'url(', '@x', '@media', '{', '}', '(', ')', '[', ';', ':', ',', '!', '"u', '1px', '/*c*/', '/*']
 CONTEXTS = ['%s', 'a{%s}', 'a{b:%s}', '%s{c:d}', '@media all{%s}', '@page{%s}', '@font-face{%s}', '@variables{%s}', '@import %s;',
-            'a{b:c}%s', '@x %s;', 'STYLE']
+            'a{b:c}%s', '@x %s;', 'STYLE',
+            # in the middle of a construct (used with the full alphabet only): after a value, after a selector part, after a medium,
+            # between two declarations, after a function argument
+            'a{b:c %s}', 'a %s{c:d}', '@media tv %s{a{b:c}}', 'a{b:c;%s;d:e}', 'a{b:f(1 %s)}']
+N_BASE_CONTEXTS = 12
 CONFIGS = [(True, True), (False, False), (True, False), (False, True)]  # (parseComments, validate)
 
 
@@ -142,10 +146,11 @@ def _mk_text(ctx_i, body):
 def _seq_shard(res, alphabet, first, depth, configs, exact):
     """all sequences starting with `first` of length == depth (exact) or 1..depth"""
     lens = [depth] if exact else range(1, depth + 1)
+    ncontexts = N_BASE_CONTEXTS if exact else len(CONTEXTS)
     for L in lens:
         for rest in itertools.product(alphabet, repeat=L - 1):
             body = first + ''.join(rest)
-            for ci in range(len(CONTEXTS)):
+            for ci in range(ncontexts):
                 text = _mk_text(ci, body)
                 for cfg in configs:
                     check_text(res, text, ci, cfg, {'kind': 'text', 'text': text, 'context': ci, 'config': list(cfg)})
@@ -380,7 +385,7 @@ def run_shard(shard, tier, seed):
         t, t2 = arg[0].split('\x00')
         for rest in itertools.product(CORE4, repeat=2):
             body = t + t2 + ''.join(rest)
-            for ci in range(len(CONTEXTS)):
+            for ci in range(N_BASE_CONTEXTS):
                 text = _mk_text(ci, body)
                 check_text(res, text, ci, CONFIGS[0], {'kind': 'text', 'text': text, 'context': ci, 'config': list(CONFIGS[0])})
     elif kind == 'b':
